@@ -164,7 +164,7 @@ func isEnc(mt frame.MessageType) bool { return mt.IsEncrypted() }
 func TestC02(t *testing.T) {
 	env := kit.GetEnv()
 	rep := kit.NewReport("C02", env)
-	rep.Rule = "grid A (round trip, wrong sessions, clear-text scan, appendix replaced / grown by a relay to 7 sizes across the pooled tiers after sealing): full cross product of 7 message types x payload sizes x switch-block sizes x appendix sizes x builder margins; grid B (tamper): for a sub-grid, every bit of every byte of the serialized frame is flipped (larger frames: every bit of all fields except payload/appendix interior, where one bit per byte is flipped) and judged by a reference layout computed from sizes; each harmless-position flip is applied to a freshly sealed frame so replay protection cannot mask the result; non-trivial = the mutation changed a byte (always) / the round trip crossed a pooled-buffer tier or used a switch block or appendix; distinct = distinct (config, bit position)"
+	rep.Rule = "grid A (round trip, wrong sessions, clear-text scan, appendix replaced / grown by a relay to 7 sizes across the pooled tiers after sealing): full cross product of 7 message types x payload sizes x switch-block sizes x appendix sizes x builder margins; grid B (tamper), on fresh sessions and on a warm session whose sender has received 70 in-sequence frames per class (receive-rate byte at its maximum): for a sub-grid, every bit of every byte of the serialized frame is flipped (larger frames: every bit of all fields except payload/appendix interior, where one bit per byte is flipped) and judged by a reference layout computed from sizes; each harmless-position flip is applied to a freshly sealed frame so replay protection cannot mask the result; non-trivial = the mutation changed a byte (always) / the round trip crossed a pooled-buffer tier or used a switch block or appendix; distinct = distinct (config, bit position)"
 	rep.Assumptions = []string{
 		"ChaCha20-Poly1305 and Ed25519 are correct; the check exercises how the frame code uses them (which bytes are covered), not the primitives",
 		"sizes between the enumerated ones behave like the enumerated ones (all pooled-buffer tier boundaries and the field-size extremes are in the grid)",
@@ -232,6 +232,36 @@ func TestC02(t *testing.T) {
 				}
 			}
 		}
+	}
+	// ---------- grid B on a warm session: the sender has received a long run of
+	// in-sequence frames of both classes from the receiver, so the receive-rate
+	// byte of its frames carries its maximum instead of the value of a fresh
+	// session (header bytes are protected whatever value they carry).
+	ww := newWorld()
+	for i := 0; i < 70; i++ {
+		for _, mt := range []frame.MessageType{frame.NetworkTraffic, frame.RouterCtrl} {
+			f, err := ww.b.FrameBuilder().NewFrameV1(pool[1].IP, pool[0].IP, mt, nil, []byte("warm-up"), nil)
+			must(err)
+			must(f.Seal(ww.ba))
+			d, _ := f.FrameDataWithMargins(0, 0)
+			g, err := ww.a.FrameBuilder().ParseFrame(append([]byte(nil), d...), nil, 0)
+			must(err)
+			must(g.Unseal(ww.ab))
+			f.ReturnToPool()
+		}
+	}
+	for _, mt := range types {
+		idx++
+		if !env.Mine(idx) {
+			continue
+		}
+		c := cfg{mt, 45, 2, 64, 12, 16}
+		probe, err := ww.seal(c, randBytes(45), []byte{2, 0}, nil)
+		must(err)
+		rep.Outcome(fmt.Sprintf("warm-session/recv-rate-byte=%d", probe.wire[3]))
+		n := gridB(rep, ww, c, env)
+		evals += n
+		nontrivial += n
 	}
 	rep.Add(evals, nontrivial, 0, 0)
 	if err := rep.Finish(env); err != nil {
